@@ -155,6 +155,13 @@ fn check_f(cfg: &FCfg) -> Report {
         }
         2.0 * l
     };
+    // the layer compares against the crate's own spline on the range: where that spline is not finite in this unit
+    // (squares of the spacing underflow when building it) there is nothing to compare with, and C07 says nothing
+    let reference_finite = lip.is_finite() && (0..=64).all(|k| plain.eval(&[(x0 + period * (k as f64) / 64.0).min(xn)]).map(|v| v[0][0].is_finite()).unwrap_or(false));
+    if !reference_finite {
+        chk.rep.notes.push(format!("{}: the spline itself is not finite in this unit (underflow while building it): configuration not usable for layer F", chk.cfg_name));
+        return chk.rep;
+    }
     let ulp = |v: f64| (v.abs() * f64::EPSILON).max(f64::MIN_POSITIVE);
     crate::engine::core::silence_panics();
     let mut strata_hit = std::collections::BTreeSet::new();
@@ -211,7 +218,7 @@ fn check_f(cfg: &FCfg) -> Report {
             match (got, want) {
                 (Ok(Ok(v)), Some(o)) => {
                     let r = v[0][0];
-                    if informative && !((r - o).abs() <= tol) {
+                    if informative && o.is_finite() && !((r - o).abs() <= tol) {
                         let mut j = rec(&chk);
                         j.set("observed", r);
                         chk.finding(&format!("C07:not-periodic:ieee-witness:{}", if inside { "inside" } else if qv > xn { "right" } else { "left" }), &format!("{}: finite query {qv:e} ({sname}) evaluates to {r}, the spline at the wrapped argument is {o}", chk.cfg_name), j, Some(true));
